@@ -1,0 +1,257 @@
+//go:build verif
+
+// Machine-checked contracts for this package (comment-only; compiled only under the
+// build tag `verif`, where it still contains no code). Checked by /verif/govc.
+package keeper
+
+// ---- C08: pool totals = Σ positions; counter = number of positions ---------------------------------
+//@ aggregate posLpSum(p) table leveragelp:types.GetPositionKey row types.Position value ite(row.AmmPoolId == p, row.LeveragedLpAmount, 0)
+//@ aggregate posCount table leveragelp:types.GetPositionKey row types.Position value 1
+//@ define poolHas(ctx, p) := has(ctx, "leveragelp:types.KeyPrefix/types.PoolKey", "Pool/value/", p)
+//@ define poolRow(ctx, p) := row(ctx, "leveragelp:types.KeyPrefix/types.PoolKey", "types.Pool", "Pool/value/", p)
+//@ define posHas(ctx, a, id) := has(ctx, "leveragelp:types.GetPositionKey", a, id)
+//@ define posRow(ctx, a, id) := row(ctx, "leveragelp:types.GetPositionKey", "types.Position", a, id)
+//@ define openCount(ctx) := rowU64(ctx, "leveragelp:types.OpenPositionCountPrefix")
+//@ define idCount(ctx) := rowU64(ctx, "leveragelp:types.PositionCountPrefix")
+//@ define lpPoolGap(ctx, p) := ite(poolHas(ctx, p), poolRow(ctx, p).LeveragedLpAmount, 0) - posLpSum(ctx, p)
+//@ define lpCountGap(ctx) := openCount(ctx) - posCount(ctx)
+
+// Every stored position sits under its owner's key and id; every stored pool under its amm pool id.
+//@ rowinv C08/positionKey table leveragelp:types.GetPositionKey row types.Position : unbech32(row.Address) == key0 && row.Id == key1 && key1 > 0
+//@ rowinv C08/poolKey table leveragelp:types.KeyPrefix/types.PoolKey row types.Pool : row.AmmPoolId == key1
+
+// Position ids are handed out from a counter: nothing is stored under an id above it.
+//@ func (Keeper).SetPosition
+//@ forall p Int
+//@ assumes !posHas(ctx, unbech32(position.Address), idCount(ctx) + 1)
+//@ ensures C08/set-keeps-counter-in-step: lpCountGap(ctx) == old(lpCountGap(ctx)) + ite(old(position.Id) == 0, 0, ite(old(posHas(ctx, unbech32(position.Address), position.Id)), 0, 0 - 1))
+
+//@ func (Keeper).DestroyPosition
+//@ ensures C08/destroy-keeps-counter-in-step: err == nil && old(openCount(ctx)) > 0 ==> lpCountGap(ctx) == old(lpCountGap(ctx))
+//@ ensures C08/destroy-removes-the-row: err == nil ==> !posHas(ctx, positionAddress, id)
+
+//@ func (Keeper).GetPositionHealth
+//@ modifies module:stablestake
+//@ frame-only
+
+// Pagination over the position store (query.Paginate, SDK code): the page holds stored rows,
+// each key at most once. Trusted: the body is SDK pagination with a callback.
+//@ func (Keeper).GetPositions
+//@ modifies nothing
+//@ trusted
+//@ ensures C08/page-of-stored-positions: allOf(result0, x, posHas(ctx, unbech32(x.Address), x.Id) && posRow(ctx, unbech32(x.Address), x.Id).LeveragedLpAmount == x.LeveragedLpAmount && posRow(ctx, unbech32(x.Address), x.Id).AmmPoolId == x.AmmPoolId)
+//@ ensures C08/page-without-repeats: len(result0) < 2 || result0[0].Id != result0[1].Id || unbech32(result0[0].Address) != unbech32(result0[1].Address)
+
+// A position handed to the functions below is the stored one (or a new one with no shares yet).
+//@ define positionIsStored(ctx, pos) := ite(posHas(ctx, unbech32(pos.Address), pos.Id), posRow(ctx, unbech32(pos.Address), pos.Id).LeveragedLpAmount == pos.LeveragedLpAmount && posRow(ctx, unbech32(pos.Address), pos.Id).AmmPoolId == pos.AmmPoolId, pos.LeveragedLpAmount == 0)
+
+//@ func (Keeper).ProcessOpenLong
+//@ forall p Int
+//@ decabstract
+//@ requires position.AmmPoolId == poolId && position.Id != 0
+//@ requires positionIsStored(ctx, position)
+//@ ensures C08/pool-total-in-step-with-positions: err == nil ==> lpPoolGap(ctx, p) == old(lpPoolGap(ctx, p))
+//@ ensures C08/counter-in-step: err == nil ==> lpCountGap(ctx) == old(lpCountGap(ctx)) - ite(old(posHas(ctx, unbech32(position.Address), position.Id)), 0, 1)
+
+//@ func (Keeper).OpenLong
+//@ forall p Int
+//@ decabstract
+//@ assumes !posHas(ctx, unbech32(msg.Creator), idCount(ctx) + 1)
+//@ ensures C08/pool-total-in-step-with-positions: err == nil ==> lpPoolGap(ctx, p) == old(lpPoolGap(ctx, p))
+//@ ensures C08/counter-in-step: err == nil ==> lpCountGap(ctx) == old(lpCountGap(ctx))
+
+//@ func (Keeper).OpenConsolidate
+//@ forall p Int
+//@ decabstract
+//@ requires position.Id != 0 && posHas(ctx, unbech32(position.Address), position.Id) && positionIsStored(ctx, position)
+//@ ensures C08/pool-total-in-step-with-positions: err == nil ==> lpPoolGap(ctx, p) == old(lpPoolGap(ctx, p))
+//@ ensures C08/counter-in-step: err == nil ==> lpCountGap(ctx) == old(lpCountGap(ctx))
+
+//@ func (Keeper).ForceCloseLong
+//@ forall p Int
+//@ decabstract
+//@ modifies table:leveragelp:types.GetPositionKey[unbech32(position.Address); position.Id], table:leveragelp:types.KeyPrefix/types.PoolKey["Pool/value/"; position.AmmPoolId], table:leveragelp:types.OpenPositionCountPrefix
+//@ modifies bank, module:amm, module:stablestake, module:commitment, module:masterchef, module:accountedpool, module:estaking, module:perpetual, module:tier, module:sdk-distribution
+//@ requires posHas(ctx, unbech32(position.Address), position.Id) && positionIsStored(ctx, position)
+//@ requires pool.AmmPoolId == position.AmmPoolId && poolHas(ctx, position.AmmPoolId) && pool.LeveragedLpAmount == poolRow(ctx, position.AmmPoolId).LeveragedLpAmount
+//@ assumes openCount(ctx) > 0
+//@ ensures C08/pool-total-in-step-with-positions: err == nil ==> lpPoolGap(ctx, p) == old(lpPoolGap(ctx, p))
+//@ ensures C08/counter-in-step: err == nil ==> lpCountGap(ctx) == old(lpCountGap(ctx))
+//@ ensures C08/full-close-removes-the-position: err == nil && lpAmount == position.LeveragedLpAmount ==> !posHas(ctx, unbech32(position.Address), position.Id)
+//@ ensures C08/partial-close-keeps-the-rest: err == nil && lpAmount != position.LeveragedLpAmount ==> posHas(ctx, unbech32(position.Address), position.Id) && posRow(ctx, unbech32(position.Address), position.Id).LeveragedLpAmount == old(position.LeveragedLpAmount) - lpAmount
+
+// ---- C08: the other writers of the leveragelp store, and the callers up to the entry points ---------
+// Primitive writers of the invariant's tables: executed in line at their call sites (their
+// callers carry the gap obligations); the frame pins which rows they write.
+//@ func (Keeper).SetPool
+//@ inline
+//@ modifies table:leveragelp:types.KeyPrefix/types.PoolKey["Pool/value/"; pool.AmmPoolId]
+//@ ensures C08/stores-the-pool: poolHas(ctx, pool.AmmPoolId) && poolRow(ctx, pool.AmmPoolId).LeveragedLpAmount == pool.LeveragedLpAmount
+
+//@ func (Keeper).DeletePool
+//@ inline
+//@ modifies table:leveragelp:types.KeyPrefix/types.PoolKey["Pool/value/"; poolId]
+//@ ensures C08/removes-the-pool: !poolHas(ctx, poolId)
+
+//@ func (Keeper).RemovePool
+//@ inline
+//@ modifies table:leveragelp:types.KeyPrefix/types.PoolKey["Pool/value/"; index]
+//@ ensures C08/removes-the-pool: !poolHas(ctx, index)
+
+//@ func (Keeper).UpdatePoolHealth
+//@ inline
+//@ modifies table:leveragelp:types.KeyPrefix/types.PoolKey["Pool/value/"; pool.AmmPoolId], *pool.Health
+//@ ensures C08/stores-the-pool: poolHas(ctx, pool.AmmPoolId) && poolRow(ctx, pool.AmmPoolId).LeveragedLpAmount == pool.LeveragedLpAmount
+
+//@ func (Keeper).SetOpenPositionCount
+//@ inline
+//@ modifies table:leveragelp:types.OpenPositionCountPrefix
+//@ ensures C08/stores-the-counter: openCount(ctx) == count
+
+//@ func (Keeper).SetPositionCount
+//@ inline
+//@ modifies table:leveragelp:types.PositionCountPrefix
+//@ ensures C08/stores-the-counter: idCount(ctx) == count
+
+// Writers of other tables of the module: the frame shows they cannot touch pools, positions or counters.
+//@ func (Keeper).SetOffset
+//@ inline
+//@ other-tables
+//@ modifies table:leveragelp:types.OffsetKeyPrefix
+//@ ensures C08/other-table: lpCountGap(ctx) == old(lpCountGap(ctx))
+
+//@ func (Keeper).DeleteOffset
+//@ inline
+//@ other-tables
+//@ modifies table:leveragelp:types.OffsetKeyPrefix
+//@ ensures C08/other-table: lpCountGap(ctx) == old(lpCountGap(ctx))
+
+//@ func (Keeper).WhitelistAddress
+//@ inline
+//@ other-tables
+//@ modifies table:leveragelp:types.GetWhitelistKey[address]
+//@ ensures C08/other-table: lpCountGap(ctx) == old(lpCountGap(ctx))
+
+//@ func (Keeper).DewhitelistAddress
+//@ inline
+//@ other-tables
+//@ modifies table:leveragelp:types.GetWhitelistKey[address]
+//@ ensures C08/other-table: lpCountGap(ctx) == old(lpCountGap(ctx))
+
+//@ func (Keeper).SetParams
+//@ inline
+//@ other-tables
+//@ modifies table:leveragelp:types.KeyPrefix["leveragelp_params"]
+//@ ensures C08/other-table: lpCountGap(ctx) == old(lpCountGap(ctx))
+
+// The liquidation and stop-loss helpers swallow nothing themselves, but their callers (the block
+// sweep and the close-positions handler) log the error and go on: whatever they return, the
+// books must be in step.
+//@ func (Keeper).CheckAndLiquidateUnhealthyPosition
+//@ forall p Int
+//@ decabstract
+//@ modifies *position.PositionHealth
+//@ modifies table:leveragelp:types.GetPositionKey[unbech32(position.Address); position.Id], table:leveragelp:types.KeyPrefix/types.PoolKey["Pool/value/"; position.AmmPoolId], table:leveragelp:types.OpenPositionCountPrefix
+//@ modifies bank, module:amm, module:stablestake, module:commitment, module:masterchef, module:accountedpool, module:estaking, module:perpetual, module:tier, module:sdk-distribution
+//@ requires posHas(ctx, unbech32(position.Address), position.Id) && positionIsStored(ctx, position)
+//@ requires pool.AmmPoolId == position.AmmPoolId && poolHas(ctx, position.AmmPoolId) && pool.LeveragedLpAmount == poolRow(ctx, position.AmmPoolId).LeveragedLpAmount
+//@ assumes openCount(ctx) > 0
+//@ ensures C08/pool-total-in-step-with-positions: lpPoolGap(ctx, p) == old(lpPoolGap(ctx, p))
+//@ ensures C08/counter-in-step: lpCountGap(ctx) == old(lpCountGap(ctx))
+//@ ensures C08/no-attempt-no-close: !closeAttempted ==> posHas(ctx, unbech32(position.Address), position.Id) && positionIsStored(ctx, position) && poolHas(ctx, position.AmmPoolId) && poolRow(ctx, position.AmmPoolId).LeveragedLpAmount == old(poolRow(ctx, position.AmmPoolId).LeveragedLpAmount) && position.AmmPoolId == old(position.AmmPoolId)
+
+//@ func (Keeper).CheckAndCloseAtStopLoss
+//@ forall p Int
+//@ decabstract
+//@ modifies *position.PositionHealth
+//@ modifies table:leveragelp:types.GetPositionKey[unbech32(position.Address); position.Id], table:leveragelp:types.KeyPrefix/types.PoolKey["Pool/value/"; position.AmmPoolId], table:leveragelp:types.OpenPositionCountPrefix
+//@ modifies bank, module:amm, module:stablestake, module:commitment, module:masterchef, module:accountedpool, module:estaking, module:perpetual, module:tier, module:sdk-distribution
+//@ requires posHas(ctx, unbech32(position.Address), position.Id) && positionIsStored(ctx, position)
+//@ requires pool.AmmPoolId == position.AmmPoolId && poolHas(ctx, position.AmmPoolId) && pool.LeveragedLpAmount == poolRow(ctx, position.AmmPoolId).LeveragedLpAmount
+//@ assumes openCount(ctx) > 0
+//@ ensures C08/pool-total-in-step-with-positions: lpPoolGap(ctx, p) == old(lpPoolGap(ctx, p))
+//@ ensures C08/counter-in-step: lpCountGap(ctx) == old(lpCountGap(ctx))
+
+//@ func (Keeper).CloseLong
+//@ forall p Int
+//@ decabstract
+//@ assumes openCount(ctx) > 0
+//@ ensures C08/pool-total-in-step-with-positions: err == nil ==> lpPoolGap(ctx, p) == old(lpPoolGap(ctx, p))
+//@ ensures C08/counter-in-step: err == nil ==> lpCountGap(ctx) == old(lpCountGap(ctx))
+
+//@ func (Keeper).Close
+//@ forall p Int
+//@ decabstract
+//@ assumes openCount(ctx) > 0
+//@ ensures C08/pool-total-in-step-with-positions: err == nil ==> lpPoolGap(ctx, p) == old(lpPoolGap(ctx, p))
+//@ ensures C08/counter-in-step: err == nil ==> lpCountGap(ctx) == old(lpCountGap(ctx))
+
+//@ func (msgServer).Close
+//@ entry
+//@ forall p Int
+//@ decabstract
+//@ assumes openCount(goCtx) > 0
+//@ ensures C08/pool-total-in-step-with-positions: err == nil ==> lpPoolGap(goCtx, p) == old(lpPoolGap(goCtx, p))
+//@ ensures C08/counter-in-step: err == nil ==> lpCountGap(goCtx) == old(lpCountGap(goCtx))
+
+//@ func (Keeper).Open
+//@ forall p Int
+//@ decabstract
+//@ assumes !posHas(ctx, unbech32(msg.Creator), idCount(ctx) + 1)
+//@ ensures C08/pool-total-in-step-with-positions: err == nil ==> lpPoolGap(ctx, p) == old(lpPoolGap(ctx, p))
+//@ ensures C08/counter-in-step: err == nil ==> lpCountGap(ctx) == old(lpCountGap(ctx))
+
+//@ func (msgServer).Open
+//@ entry
+//@ forall p Int
+//@ decabstract
+//@ assumes !posHas(goCtx, unbech32(msg.Creator), idCount(goCtx) + 1)
+//@ ensures C08/pool-total-in-step-with-positions: err == nil ==> lpPoolGap(goCtx, p) == old(lpPoolGap(goCtx, p))
+//@ ensures C08/counter-in-step: err == nil ==> lpCountGap(goCtx) == old(lpCountGap(goCtx))
+
+//@ func (Keeper).ProcessAddCollateral
+//@ forall p Int
+//@ decabstract
+//@ ensures C08/pool-total-in-step-with-positions: err == nil ==> lpPoolGap(ctx, p) == old(lpPoolGap(ctx, p))
+//@ ensures C08/counter-in-step: err == nil ==> lpCountGap(ctx) == old(lpCountGap(ctx))
+
+//@ func (msgServer).UpdateStopLoss
+//@ entry
+//@ forall p Int
+//@ ensures C08/pool-total-in-step-with-positions: err == nil ==> lpPoolGap(goCtx, p) == old(lpPoolGap(goCtx, p))
+//@ ensures C08/counter-in-step: err == nil ==> lpCountGap(goCtx) == old(lpCountGap(goCtx))
+
+//@ func (msgServer).AddPool
+//@ entry
+//@ forall p Int
+//@ ensures C08/pool-total-in-step-with-positions: err == nil ==> lpPoolGap(goCtx, p) == old(lpPoolGap(goCtx, p))
+//@ ensures C08/counter-in-step: err == nil ==> lpCountGap(goCtx) == old(lpCountGap(goCtx))
+
+// Removing a pool keeps the books in step because it is refused while the pool's total is
+// positive, and the total is the (non-negative) sum of the positions' shares.
+//@ func (msgServer).RemovePool
+//@ entry
+//@ forall p Int
+//@ requires lpPoolGap(goCtx, msg.Id) == 0
+//@ assumes posLpSum(goCtx, msg.Id) >= 0
+//@ ensures C08/pool-total-in-step-with-positions: err == nil ==> lpPoolGap(goCtx, p) == old(lpPoolGap(goCtx, p))
+//@ ensures C08/counter-in-step: err == nil ==> lpCountGap(goCtx) == old(lpCountGap(goCtx))
+
+// The close-positions handler and the block sweep log the errors of the single closes and go on.
+//@ func (msgServer).ClosePositions
+//@ entry
+//@ bound Liquidate 1
+//@ bound StopLoss 1
+//@ forall p Int
+//@ decabstract
+//@ assumes openCount(goCtx) > 0
+//@ ensures C08/pool-total-in-step-with-positions: err == nil ==> lpPoolGap(goCtx, p) == old(lpPoolGap(goCtx, p))
+//@ ensures C08/counter-in-step: err == nil ==> lpCountGap(goCtx) == old(lpCountGap(goCtx))
+
+//@ func (Keeper).BeginBlocker
+//@ entry
+//@ forall p Int
+//@ decabstract
+//@ assumes openCount(ctx) > 0
+//@ ensures C08/pool-total-in-step-with-positions: lpPoolGap(ctx, p) == old(lpPoolGap(ctx, p))
+//@ ensures C08/counter-in-step: lpCountGap(ctx) == old(lpCountGap(ctx))
